@@ -272,3 +272,28 @@ Theorem typecheck_canonical chunk name x raw rest ss rng : t_name name = "type" 
   In (NCall (FCall (PName name) (SsCons (SfxCall (CAnon (AParens (EsCons (EBinop "==" x (EString raw)) rest)))) ss) rng)) (nodes_block chunk) ->
   (1 <= n_typecheck (lint_counts chunk))%nat.
 Proof. intros Hn Hin. apply (count_in _ _ _ Hin). cbn. rewrite Hn. reflexivity. Qed.
+
+(** duplicate_keys, judged by value: number keys are equal when they denote the same number *)
+Definition num_eqb (a b : string) : bool :=
+  match lua_value a, lua_value b with
+  | Some (m1, e1), Some (m2, e2) =>
+      let emin := Z.min e1 e2 in
+      (m1 * N.pow 10 (Z.to_N (e1 - emin)) =? m2 * N.pow 10 (Z.to_N (e2 - emin)))%N
+  | _, _ => str_eqb a b
+  end.
+
+Definition key_veqb (a b : key) : bool :=
+  match fst a, fst b with
+  | KString, KString => str_eqb (snd a) (snd b)
+  | KNumber, KNumber => num_eqb (snd a) (snd b)
+  | _, _ => false
+  end.
+
+Fixpoint vdup_count (ks declared : list key) : nat :=
+  match ks with
+  | [] => O
+  | k :: r => if existsb (key_veqb k) declared then S (vdup_count r declared) else vdup_count r (k :: declared)
+  end.
+
+Definition vdup_keys_count (n : node) : nat :=
+  match n with NTable fs => vdup_count (field_keys (fields_list fs) 0) [] | _ => O end.
